@@ -232,6 +232,11 @@ def _check_gcb(case):
             require([int(x) for x in r.part_bounds] == [0] + np.cumsum(sizes).tolist(),
                     'part_bounds wrong', key='part-bounds', observed=list(r.part_bounds))
             _iter_predicates(r, sum(sizes), 'iter_chunks')
+            # readers derived from it (channel selection, arithmetic) describe the same recording
+            for what, dr in (('derived[:, [1, 0]]', r[:, [1, 0]]), ('derived * 2', r * 2),
+                             ('-derived[:, 0:1]', -(r[:, 0:1]))):
+                _bounds_predicates(dr.chunk_bounds, sizes, cs, 'derived-chunk_bounds')
+                _iter_predicates(dr, sum(sizes), 'derived-iter_chunks')
         finally:
             for m in getattr(r, '_mmaps', []):
                 m._mmap.close()
@@ -285,6 +290,9 @@ def _check_cbin(case):
             r = must_return('get_ephys_reader', get_ephys_reader, mr)
             _bounds_predicates(r.chunk_bounds, [n], c, 'cbin-chunk_bounds')
             it = _iter_predicates(r, n, 'cbin-iter_chunks', cache=cache)
+            dr = r[:, [1, 0]] * 2
+            _bounds_predicates(dr.chunk_bounds, [n], c, 'cbin-derived-chunk_bounds')
+            _iter_predicates(dr, n, 'cbin-derived-iter_chunks', cache=cache)
         finally:
             mr.close()
         if (n + c + nt) % 3 == 0:
